@@ -160,7 +160,7 @@ InitTensors ==
   \cup {[kind |-> "QBytes", qt |-> q, axis |-> a, shape |-> s, pshape |-> s, dtype |-> "float32", why |-> ""] :
           q \in {"qint8", "qfloat8_e4m3fn"}, a \in {"first", "last"}, s \in {<<2, 3>>, <<3, 2>>}}
   \cup {[kind |-> "QBits", qt |-> q, axis |-> "first", shape |-> s, pshape |-> s, dtype |-> "float32", why |-> ""] :
-          q \in {"qint4", "qint2"}, s \in {<<2, 3>>, <<3, 2>>}}
+          q \in {"qint4", "qint2"}, s \in {<<2, 3>>, <<3, 2>>, <<2, 4>>}}      \* <<2, 4>> is instantiated with group size 2 (two groups per row)
   \cup {[kind |-> "Plain", qt |-> "none", axis |-> "none", shape |-> s, pshape |-> s, dtype |-> "float32", why |-> ""] : s \in {<<2, 3>>}}
 
 Init == init \in InitTensors /\ cur = init /\ prog = <<>> /\ pc = "run"
